@@ -147,6 +147,23 @@ theorem hit_correct {cfg : Cfg M} {L : List Folder} {w : World M} {o : Opts} {m 
   intro f hf
   exact hsnap f (heq ▸ hf) (hst hm f hf)
 
+/-- The same when the source scan is switched off (`mtime_check = False`), provided no source
+    in the folders of the call is newer than the cache (nothing was edited since). -/
+theorem hit_correct_no_scan {cfg : Cfg M} {L : List Folder} {w : World M} {o : Opts} {m : M}
+    (hinv : FreshInv cfg L w) (hl : cfg.exclLibs = true → o.libs = L)
+    (hquiet : ∀ c, w.cache = some c → ∀ f ∈ folders o, stale c (w.fs f) = false)
+    (h : load cfg w o = .hit m) : m = compileNow cfg w o := by
+  obtain ⟨c, hc, _, hcomp, hv, hopts, rfl⟩ := load_hit h
+  obtain ⟨hlibs, snap, hmodel, hsnap⟩ := hinv c hc hcomp
+  have heq : c.db.opts = o := optsMatch_eq hopts (fun hx => by rw [hlibs hx, hl hx])
+  rw [hmodel, heq, hv]
+  unfold compileNow
+  congr 1
+  symm
+  apply srcs_congr
+  intro f hf
+  exact hsnap f (heq ▸ hf) (hquiet c hc f hf)
+
 theorem freshInv_newCache {cfg : Cfg M} {L : List Folder} {w : World M} {o : Opts} {now size k : Nat}
     (hl : cfg.exclLibs = true → o.libs = L) :
     FreshInv cfg L { w with cache := some { mtime := now, db := { version := w.version, opts := o, model := compileNow cfg w o }, size := size, written := k } } := by
